@@ -35,7 +35,7 @@ func vIP(size int) net.IP {
 func vIPList(n int) []net.IP {
 	var out []net.IP
 	for i := 0; i < n; i++ {
-		out = append(out, vIP([]int{4, 16, 5}[vInt(0, 1)]))
+		out = append(out, vIP([]int{4, 16, 5}[vInt(0, 1+vTier())])) // (5: not an IP address, thorough tier)
 	}
 	return out
 }
@@ -168,8 +168,8 @@ func vCollect(r ResolveResult, network string, stopAfter int) []Target {
 // verifC15Targets: symbolic result (<= 2 HTTPS records, thorough 3), network,
 // early termination; yielded sequence == reference; purity; repeatability.
 func verifC15Targets() {
-	nh := vInt(0, 2)
-	r := ResolveResult{Port: []uint16{443, 80, 8443, 0}[vInt(0, 1+vTier())]}
+	nh := vInt(0, 2+vTier())
+	r := ResolveResult{Port: []uint16{443, 80, 8443, 0}[vInt(0, 2+vTier())]}
 	r.Address = vIPList(2 * vInt(0, 1))
 	r.Additional = map[string][]net.IP{}
 	if vBool() {
@@ -226,6 +226,17 @@ func verifC15Targets() {
 		}
 	}
 	vAssert(vSnapEq(before, vSnapshot(r)), "enumerating targets does not modify the result (including spare capacity)")
+	// one iterator value ranged over twice (first with an early stop) yields the full sequence the second time
+	seq := r.Targets(network)
+	for range seq {
+		break
+	}
+	cnt := 0
+	for t := range seq {
+		vAssert(cnt < len(want) && t.Address.Port() == want[cnt].port && vBytesEq(t.Address.Addr().AsSlice(), want[cnt].ip), "ranging over the same sequence again yields the same targets")
+		cnt++
+	}
+	vAssert(cnt == len(want), "ranging over the same sequence again yields every target")
 	again := vCollect(r, network, stop)
 	vAssert(len(again) == len(got), "second enumeration yields the same number of targets")
 	for i := range again {
